@@ -133,20 +133,20 @@ Definition do_append (me : N) (bs : boxes) (sel : option selected) (name : N)
   end.
 
 (* ----------------------------------------------------------------- STORE *)
-Definition cached_targets (b : mbox) (targets : list (N * N)) : list (N * flags) :=
-  flat_map (fun su => match cached_of b (snd su) with Some f => [(snd su, f)] | None => [] end)
+Definition keyed_targets (v : view) (targets : list (N * N)) : list (N * flags) :=
+  flat_map (fun su => match aget (snd su) (v_fkeys v) with Some f => [(snd su, f)] | None => [] end)
            targets.
 
 Definition do_store (bs : boxes) (s : selected) (sset : seqset) (by_uid : bool) (op : flagop)
            (fl : flags) (silent : bool) : outcome :=
+  if sel_readonly s then refuse bs (Some s) NO CReadOnly
+  else
   match aget (sel_box s) bs with
   | None => server_bug bs
   | Some b =>
     let s0 := if by_uid then s else with_hide s in
     let targets := view_select sset by_uid (sel_view s0) in
-    let s1 := if silent then silence (cached_targets b targets) (fs_of fl) op s0 else s0 in
-    if sel_readonly s1 then refuse bs (Some s1) NO CReadOnly
-    else
+    let s1 := if silent then silence (keyed_targets (sel_view s0) targets) (fs_of fl) op s0 else s0 in
       let pset := perm_intersect (fs_of fl) in
       let step (st : option (mbox * list (N * msg * bool))) (su : N * N) :=
           match st with
@@ -203,15 +203,19 @@ Definition do_expunge (bs : boxes) (s : selected) (uid_set : option seqset) : ou
        end.
 
 Definition do_close (bs : boxes) (s : selected) : outcome :=
-  let o := do_expunge bs s None in
-  match o_tagged o with
-  | Tagged OK _ => MkOut (o_boxes o) None false [] (Tagged OK CNone) false []
-  | _ => o
-  end.
+  if sel_readonly s then MkOut bs None false [] (Tagged OK CNone) false []
+  else
+    let o := do_expunge bs s None in
+    match o_tagged o with
+    | Tagged OK _ => MkOut (o_boxes o) None false [] (Tagged OK CNone) false []
+    | _ => MkOut (o_boxes o) None false [] (o_tagged o) false []
+    end.
 
 (* ------------------------------------------------------------ COPY, MOVE *)
 Definition do_copy_move (move : bool) (me : N) (bs : boxes) (s : selected) (sset : seqset)
            (by_uid : bool) (name : N) (pick : option N) : outcome :=
+  if move && sel_readonly s then refuse bs (Some s) NO CReadOnly
+  else
   match aget name bs with
   | None => refuse bs (Some s) NO CTryCreate
   | Some dest0 =>
